@@ -37,6 +37,10 @@ def make_configs(r, n):
     # commands under which many candidates of one sweep succeed at once
     for i, (text, spec, opts, meta) in enumerate(cfgs):
         spec['delay_ms'] = r.choice([2, 6, 12])
+        if i % 3 == 0:
+            # the main loop is slow to act on a success: further checks
+            # complete before the abort signal is raised
+            meta.setdefault('env', {})['VERIF_MAIN_DELAY_MS'] = '200'
         if i % 2 == 1:
             # permissive command: most candidates of a sweep are accepted, so
             # several workers succeed before any of them sees the abort flag
